@@ -1,6 +1,149 @@
 import HapVerif.Model.C03
+import HapVerif.Lemmas.C03
 import HapVerif.Generated.Facts
+/-!
+# C03 — requests reach exactly the ready endpoints that Ingress and Service designate
+
+Model: `HapVerif.Sync` (`fullSync`, the three frontend maps in their real insertion order, `route` =
+C04 map files + lookups + the `use_backend` chain).  Spec: `HapVerif.C03.specRoute`, `ServersOK`
+(written over the cluster state).  All theorems hold for every cluster state, every request and every
+Go-map iteration order; proofs in `Lemmas/C03.lean` (core Lean), path precedence from the proved
+`C04.layout_wellordered` / `C04.lookup_of_wellordered`.
+
+Hypotheses: `WFWorld w` (declared hosts without `/`, `#`; declared paths start with `/`, no `#`, no
+empty segment — the hypotheses of C04, decidable) and `C04.WFReq` on the request.  Not assumed:
+unique names, existing services, lower-case hosts, absence of duplicates.
+
+Shape of the statement.  The brief's `route (fullSync w) req = specRoute w req` cannot hold as an
+equation between single answers: when two declared paths of different types have the same length
+and both match (`/a` Prefix and `/a` ImplementationSpecific for `/a/x`), the documentation does not
+order them and the code's choice depends on the layout of the map files (C04 leaves exactly these
+ties open, `C04.best`).  `specRoute` is therefore the list of allowed backends and the theorem is
+membership; `route_spec_eq` is the equation whenever the Spec determines the answer.
+-/
 namespace HapVerif.C03
+open HapVerif.Sync
+open HapVerif.C04 (Str)
+
+/-- **route_spec**: whatever the iteration order of the three maps, the frontends send a request to
+a backend the Spec allows: the exact / longest declared path of its host among the first
+declarations of the first-created Ingresses (HTTPS: only hosts with a tls entry), else the same on
+the default host, else the default backend, else 404. -/
+theorem route_spec {w : World} (wf : WFWorld w = true) {π : Iter} (hπ : IterOK (fullSync w) π)
+    {r : Req} (rq : C04.WFReq r.host r.path = true) :
+    route (fullSync w) π r ∈ specRoute w r :=
+  route_mem_spec wf hπ rq
+
+/-- the equation, whenever the Spec determines the answer -/
+theorem route_spec_eq {w : World} (wf : WFWorld w = true) {π : Iter} (hπ : IterOK (fullSync w) π)
+    {r : Req} (rq : C04.WFReq r.host r.path = true) {b : Str}
+    (det : ∀ x ∈ specRoute w r, x = b) : route (fullSync w) π r = b :=
+  det _ (route_spec wf hπ rq)
+
+/-- two iteration orders of Go's maps give the same answer whenever the Spec determines it -/
+theorem route_iter_indep {w : World} (wf : WFWorld w = true) {π π' : Iter}
+    (hπ : IterOK (fullSync w) π) (hπ' : IterOK (fullSync w) π')
+    {r : Req} (rq : C04.WFReq r.host r.path = true) {b : Str}
+    (det : ∀ x ∈ specRoute w r, x = b) : route (fullSync w) π r = route (fullSync w) π' r := by
+  rw [route_spec_eq wf hπ rq det, route_spec_eq wf hπ' rq det]
+
+/-- the iteration order used by the driver is admissible (the hypothesis `IterOK` is satisfiable) -/
+theorem iter_exists (c : Cfg) : IterOK c c.iter0 := iter0_ok c
+
+/-- the parts of the model the Spec refers to, as equations: the paths of the configuration are the
+first declarations; a host has TLS iff an Ingress declares it -/
+theorem paths_spec (w : World) : (fullSync w).paths = effective w := fullSync_paths w
+theorem hasTLS_spec (w : World) (h : Str) : (fullSync w).hasTLS h = declaresTLS w h := fullSync_hasTLS w h
+
+/-- every effective path comes from a declaration of an Ingress of this controller whose Service
+port exists, and its backend is in the configuration -/
+theorem path_designates {w : World} {p : HPath} (hp : p ∈ (fullSync w).paths) :
+    (∃ d ∈ allDecls w, toHPath w d = some p) ∧ ∃ b ∈ (fullSync w).backends, b.key = p.bk :=
+  ⟨mem_effective (by rw [← fullSync_paths]; exact hp), fullSync_phb w p hp⟩
+
+/-- **servers_spec**: every backend belongs to an existing Service port; its enabled servers are
+ready addresses of the matching Endpoints port, every ready address is enabled (or drained when it
+is also listed not-ready / terminating under drain-support), weight-0 servers exist only with
+drain-support and only for not-ready addresses or terminating pods. -/
+theorem servers_spec (w : World) : ∀ b ∈ (fullSync w).backends,
+    ∃ s sp, w.findSvc b.key.ns b.key.svc = some s ∧ sp ∈ s.ports ∧ sp.target = b.key.port ∧
+      ServersOK w s sp b.servers := by
+  intro b hb
+  obtain ⟨s, sp, h1, h2, h3, h4⟩ := fullSync_backends_ok w b hb
+  refine ⟨s, sp, h1, h2, by rw [h3], ?_⟩
+  rw [h4]
+  exact mkServers_ok w s sp
+
+/-- without drain-support no server has weight 0 -/
+theorem no_drain_without_support (w : World) (h : w.opts.drain = false) :
+    ∀ b ∈ (fullSync w).backends, drainedOf b.servers = [] := by
+  intro b hb
+  obtain ⟨s, sp, _, _, _, ok⟩ := servers_spec w b hb
+  cases hd : drainedOf b.servers with
+  | nil => rfl
+  | cons t ts =>
+    have := (ok.drained t (by rw [hd]; exact List.mem_cons_self)).1
+    rw [h] at this
+    exact absurd this (by decide)
+
+/-! ## non-vacuity: a concrete cluster state (duplicate path across two ingresses created in the
+"wrong" list order, TLS on one host, default host, not-ready endpoint) -/
+
+def s (x : String) : Str := x.toList
+
+def w0 : World :=
+  { ings := [
+      { ns := s "e", name := s "late", created := 2, valid := true,
+        rules := [⟨s "a.local", [⟨s "/", .pfx, s "app", s "80"⟩]⟩] },
+      { ns := s "d", name := s "early", created := 1, valid := true,
+        rules := [⟨s "a.local", [⟨s "/", .pfx, s "app", s "http"⟩, ⟨s "/a", .exact, s "app", s "adm"⟩]⟩,
+                  ⟨s "b.local", [⟨s "/", .impl, s "app", s "80"⟩]⟩],
+        tls := [⟨[s "a.local"], s "tls1"⟩], dflt := some (s "app", s "81") },
+      { ns := s "d", name := s "foreign", created := 0, valid := false,
+        rules := [⟨s "a.local", [⟨s "/", .pfx, s "nosvc", s "80"⟩]⟩] } ],
+    svcs := [⟨s "d", s "app", [⟨s "http", 80, s "8080"⟩, ⟨s "adm", 81, s "adm"⟩]⟩,
+             ⟨s "e", s "app", [⟨s "http", 80, s "8080"⟩]⟩],
+    eps := [⟨s "d", s "app", [⟨s "10.0.1.1", true, s "p1"⟩, ⟨s "10.0.1.2", false, s "p2"⟩],
+             [⟨s "http", 8080⟩, ⟨s "adm", 9090⟩]⟩],
+    secs := [⟨s "d", s "tls1", true, 1⟩] }
+
+example : WFWorld w0 = true := by decide +kernel
+
+/-- the duplicated `a.local/` belongs to the first-created ingress `d/early` (listed second) -/
+example : specRoute w0 ⟨false, s "a.local", s "/x"⟩ = [s "d_app_8080"] ∧
+    route (fullSync w0) (fullSync w0).iter0 ⟨false, s "a.local", s "/x"⟩ = s "d_app_8080" := by decide +kernel
+
+/-- HTTPS: `b.local` has no tls entry, the request falls to the default host (spec.defaultBackend) -/
+example : specRoute w0 ⟨true, s "b.local", s "/x"⟩ = [s "d_app_adm"] ∧
+    specRoute w0 ⟨false, s "b.local", s "/x"⟩ = [s "d_app_8080"] ∧
+    route (fullSync w0) (fullSync w0).iter0 ⟨true, s "b.local", s "/x"⟩ = s "d_app_adm" := by decide +kernel
+
+example : C04.WFReq (s "a.local") (s "/a") = true ∧
+    route (fullSync w0) (fullSync w0).iter0 ⟨true, s "a.local", s "/a"⟩ = s "d_app_adm" := by decide +kernel
+
+/-- `route_spec_eq` applied: hypotheses are satisfiable and the conclusion is about a real lookup -/
+example : route (fullSync w0) (fullSync w0).iter0 ⟨false, s "a.local", s "/x"⟩ = s "d_app_8080" :=
+  route_spec_eq (w := w0) (by decide +kernel) (iter_exists _) (by decide +kernel)
+    (b := s "d_app_8080") (by
+      have h : specRoute w0 ⟨false, s "a.local", s "/x"⟩ = [s "d_app_8080"] := by decide +kernel
+      intro x hx; rw [h] at hx; simpa using hx)
+
+/-- servers: only the ready address, the not-ready one is absent without drain-support and weight 0 with it -/
+example : (fullSync w0).backends.map (fun b => (b.key.id, b.servers)) =
+    [(s "d_app_adm", [⟨s "10.0.1.1", 9090, 1⟩]), (s "d_app_8080", [⟨s "10.0.1.1", 8080, 1⟩])] := by
+  decide +kernel
+
+example : ((fullSync { w0 with opts := { drain := true } }).backends.map (·.servers)) =
+    [[⟨s "10.0.1.1", 9090, 1⟩, ⟨s "10.0.1.2", 9090, 0⟩], [⟨s "10.0.1.1", 8080, 1⟩, ⟨s "10.0.1.2", 8080, 0⟩]] := by
+  decide +kernel
+
+/-- the oracle accepts the model's own servers and rejects a not-ready address served -/
+example : checkBackend w0 (s "d_app_8080") [⟨s "10.0.1.1", 8080, 1⟩] = none ∧
+    checkBackend w0 (s "d_app_8080") [⟨s "10.0.1.1", 8080, 1⟩, ⟨s "10.0.1.2", 8080, 1⟩] =
+      some "not-ready-endpoint-served" ∧
+    checkRoute w0 ⟨true, s "b.local", s "/x"⟩ (s "d_app_8080") = some "https-without-tls" ∧
+    checkRoute w0 ⟨false, s "a.local", s "/x"⟩ (s "e_app_8080") = some "duplicate-path-owner" := by
+  decide +kernel
 
 /-- regenerated from the Go source: the constants and conditions the model transcribes -/
 theorem facts_c03 :
